@@ -447,6 +447,10 @@ def run_real(case):
 
     def note_param(prm, spec, o):
         """book-keeping (and model line) for a parameter that has just been given to the detector"""
+        if prm != 'include_photon_noise':
+            # the grid the map carries (model `ntStep`): none for scalars / arrays, the detector grid object, another grid object
+            model.append('C17 ntset %s %s' % ({'read_noise': 'sigma', 'dark_current_rate': 'dark', 'flat_field': 'flat'}[prm],
+                                              {'field': 'detector', 'field-equal': 'foreign', 'field-other': 'foreign'}.get(spec[0], 'none')))
         if prm == 'include_photon_noise':
             cfg['photon'] = bool(spec[1])
             model.append('C17 set photon %d' % (1 if spec[1] else 0))
@@ -605,6 +609,8 @@ def run_real(case):
             do_read(o)
             if 'got' in o and not o['bad']:
                 rline(o, 'C17 tread', 'exact', 'ok ' + grid_label(images[-1][0]))
+                if case['kind'] != 'noiseless':
+                    rline(o, 'C17 ntread', 'exact', 'ok ' + grid_label(images[-1][0]))
             if refm and 'got' in o and not o['bad']:
                 rline(o, 'C17 rread', 'read', o['got'])
                 img_handle.append(len(handles))
@@ -617,6 +623,8 @@ def run_real(case):
                 o['model_int_idx'] = len(model) - 1
             if 'power' in o and o['status'] == 'ok':
                 rline(o, 'C17 tint %s' % ('foreign' if ik == 'foreignfield' else 'plain' if ik in ('plain', 'list') else 'input'), 'ok')
+                if case['kind'] != 'noiseless':
+                    rline(o, 'C17 ntint %s' % ('foreign' if ik == 'foreignfield' else 'plain' if ik in ('plain', 'list') else 'input'), 'ok')
             if refm and 'power' in o and o['status'] == 'ok':
                 rline(o, 'C17 ralloc %s' % rat_list(o['power']), 'ok')
                 rline(o, 'C17 rint %d %s %s' % (len(handles), rat(dt), rat(w)), 'ok')
@@ -628,6 +636,8 @@ def run_real(case):
                 do_read(o)
                 if 'got' in o and not o['bad']:
                     rline(o, 'C17 tread', 'exact', 'ok ' + grid_label(images[-1][0]))
+                    if case['kind'] != 'noiseless':
+                        rline(o, 'C17 ntread', 'exact', 'ok ' + grid_label(images[-1][0]))
                 if refm and 'got' in o and not o['bad']:
                     rline(o, 'C17 rread', 'read', o['got'])
                     img_handle.append(len(handles))
@@ -1306,6 +1316,14 @@ def run_reint(case):
         if e.size != nin:
             raise MachineryError('wavefront of %d samples on an input grid of %d' % (e.size, nin))
         return [(fr(z.real) ** 2 + fr(z.imag) ** 2) * fr(x) for z, x in zip(e, w)]
+    def contents(wf):
+        e = np.array(wf.electric_field).ravel()
+        w = np.asarray(wf.electric_field.grid.weights, dtype=float) + np.zeros(e.size)
+        return rat_list([float(z.real) for z in e]), rat_list([float(z.imag) for z in e]), rat_list([float(x) for x in w])
+    # the model is given the CONTENTS of the wavefront objects (ops wcreate / wfield / wweights) and computes |E|^2 * weights itself (`Wf.power`)
+    lines.append('C17 new noiseless %s %s' % (model_sub(case), rd))
+    for wf in wfs:
+        lines.append('C17 wcreate %s %s %s' % contents(wf))
     pending = []      # (power (Fractions), dt, w, label of the edit the wavefront went through since its power was last evaluated)
     for k, op in enumerate(case['ops']):
         try:
@@ -1339,10 +1357,7 @@ def run_reint(case):
                     if bad:
                         break
                     if di == 0:
-                        lines.append('C17 new noiseless %s %s' % (model_sub(case), rd))
-                        for pw, dt, w, _ in pending:
-                            lines.append('C17 int %s %s %s' % (rat_list(pw), rat(dt), rat(w)))
-                        lines.append('C17 read')
+                        lines.append('C17 wread')
                         cmps.append((len(lines) - 1, [float(x) for x in arr]))
                 if bad:
                     break
@@ -1356,6 +1371,7 @@ def run_reint(case):
                 for d in dets:
                     d.integrate(wfs[j], op[2], op[3])
                 pending.append((pw, op[2], op[3], state[j]['stale']))
+                lines.append('C17 wint %d %s %s' % (j, rat(op[2]), rat(op[3])))
                 cnt.append('reint:integrate:' + ('same-object-after-' + state[j]['stale'] if state[j]['stale']
                                                  else ('same-object-unchanged' if state[j]['evaluated'] else 'first-use')))
                 state[j] = {'evaluated': True, 'stale': None}
@@ -1397,6 +1413,9 @@ def run_reint(case):
                         state[j]['evaluated'] = True
                     else:
                         kind = 'total_power(skipped: dark wavefront)'
+                re_, im_, wt_ = contents(wf)
+                lines.append('C17 wfield %d %s %s' % (j, re_, im_))
+                lines.append('C17 wweights %d %s' % (j, wt_))
                 cnt.append('reint:edit:' + kind)
                 if kind in IN_PLACE_EDITS and state[j]['evaluated']:
                     state[j]['stale'] = kind if not state[j]['stale'] else state[j]['stale']
